@@ -60,6 +60,7 @@ package main
 //@   send errChan
 //@     assert[C19:only-errors-are-queued] arg1 != nil
 //@     assert[C19:error-queue-never-blocks-a-writer] chlen(errChan) < chcap(errChan)
+//@   ensures[C19:error-queue-left-open-for-the-caller-to-close] !closed(errChan) && chcap(errChan) == old(chcap(errChan))
 
 // ---- the three agent endpoints: nothing happens before the caller is validated, and everything happens under the validated id (C17, C19) ----
 //@ func pendingHandler props(C17,C07)
